@@ -196,7 +196,7 @@ CLAIMED['C18'] = (
     'form, an added unknown element - are parsed by the real parser and must give field-by-field equal objects; '
     'position, character and run length of the deviation are the symbolic inputs. Types: HSTS, Expect-CT, '
     'Expect-Staple, HPKP, Cache-Control, Set-Cookie, Content-Type, X-XSS-Protection, CSP, NEL, DMARC, MTA-STS, TLSRPT, '
-    'SPF, three field lines, and a 12-field header block (every field equals the field parsed alone; a field renamed '
+    'SPF (23 models incl. boundary-value and quoted variants), three field lines, and a 12-field header block (every field equals the field parsed alone; a field renamed '
     'to an unknown name stays as an unparsed field with the same value and leaves the others alone). Natively: every '
     'deviation of every axis of every model',
     'one deviation at a time from one sample value per type; whitespace runs <= 3; quick: the first and one rotated '
